@@ -12,7 +12,10 @@ try:
     subprocess.run("git ls-files -z | xargs -0 cp --parents -t " + repo, shell=True, cwd="/repo", check=True)
     subprocess.run(["git", "init", "-q", "."], cwd=repo, check=True)
     subprocess.run(["git", "apply", os.path.join(src, "patch.diff")], cwd=repo, check=True)
-    demo = os.path.join(src, "demo.py")
+    # the producing agent's demo may assert that it runs inside ITS worktree: drop those lines
+    demo = os.path.join(work, "demo.py")
+    lines = [l for l in open(os.path.join(src, "demo.py")).read().splitlines() if "__file__" not in l or "startswith" not in l]
+    open(demo, "w").write("\n".join(lines) + "\n")
     def run(pp):
         env = dict(os.environ, PYTHONPATH=pp + ":" + root)
         p = subprocess.run(["/venv/bin/python", "-W", "ignore", demo], env=env, capture_output=True, text=True, timeout=1200, cwd=work)
@@ -29,9 +32,10 @@ try:
     if not ok:
         print("NOT CONFIRMED", out_clean[-200:], out_mut[-200:]); sys.exit(1)
     dst = os.path.join(root, "seeded", sid); os.makedirs(dst, exist_ok=True)
-    for f in ("patch.diff", "demo.py", "notes.md"):
+    for f in ("patch.diff", "notes.md"):
         if os.path.exists(os.path.join(src, f)):
             shutil.copy(os.path.join(src, f), os.path.join(dst, f))
+    shutil.copy(demo, os.path.join(dst, "demo.py"))
     notes = open(os.path.join(src, "notes.md")).read() if os.path.exists(os.path.join(src, "notes.md")) else ""
     json.dump({"id": sid, "breaks": breaks.split(","), "origin": "written by a fresh sub-agent given only the property text and a scratch worktree",
                "needs": notes[:900], "demonstration": "PYTHONPATH=<checkout> /venv/bin/python demo.py: exit 0 on the clean tree, non-zero with the patch",
